@@ -598,3 +598,26 @@ Example ex_fetch_run :
   filter is_store_event (o_events (transfer ex_fetch)) = [Put f1 true; Put f2 false] /\
   o_outcome (transfer ex_fetch) = TOk [f1] [d1; f2] /\ has (dst_after ex_fetch) d1 = false.
 Proof. vm_compute. auto. Qed.
+
+(* a stale destination index that status() detects: the remote was garbage-collected (d1 and its
+   files f1, f2 are gone) but the index still remembers them; the next push asks for d2 = [f2].
+   An indexed directory object has vanished and the query contains a directory, so the index is
+   cleared, f2 is found missing and uploaded BEFORE d2 ([ix_detected], the left branch of
+   [ix_sound]).  Without that validation f2 would be answered from the index and d2 go up alone. *)
+Definition ex_stale : t_in :=
+  {| t_src := [(f2, [12]); (d2, [2])]; t_dst := []; t_cache := None; t_parse := ex_parse;
+     t_corrupt := fun _ => false; t_req := [d2]; t_shallow := false; t_verify := false;
+     t_dix := Some [(f1, false); (f2, false); (d1, true)]; t_six := None;
+     t_dnoop := false; t_snoop := false;
+     t_fails := fun _ => false; t_part := fun _ => false; t_trunc := fun _ => [];
+     t_dord := fun l => l; t_bord := fun l => l |}.
+Example ex_stale_wf : wf ex_stale.
+Proof.
+  pose proof (ex_wf [(f2, [12]); (d2, [2])] [d2] [] false) as [A B C D E F G H].
+  constructor; auto. left. split; [discriminate|reflexivity].
+Qed.
+Example ex_stale_run :
+  filter is_store_event (o_events (transfer ex_stale)) = [Put f2 true; Put d2 true] /\
+  o_outcome (transfer ex_stale) = TOk [d2; f2] [] /\
+  option_map (map fst) (w_dix (final_world ex_stale)) = Some [f2; d2].
+Proof. vm_compute. auto. Qed.
